@@ -35,7 +35,7 @@ fn plan(tier: Tier) -> Plan {
     match tier {
         Tier::Quick => Plan {
             // exhaustive tuples, then random cases
-            cases: tuples(QUICK_MAXW, QUICK_WORDS) + 40_000,
+            cases: tuples(QUICK_MAXW, QUICK_WORDS) + 200_000,
             time_cap_s: 45,
             case_timeout_s: 20,
             exhaustive: false,
